@@ -13,7 +13,8 @@ from vlib import build, driver, model as M, rigp, runner, specs
 
 PID = "C06"
 BASE = (1, 3, 6, 1, 4, 1, 9, 2)
-U = [BASE[:-1] + (1, 7), BASE, BASE + (1,), BASE + (2,), BASE + (2, 1), BASE + (3,), BASE[:-1] + (3,)]
+U = [BASE[:-1] + (1, 7), BASE, BASE + (1,), BASE + (2,), BASE + (2, 1), BASE + (3,), BASE[:-1] + (3,),
+     BASE + (300,), BASE + (16383,), BASE + (16384,)]   # arcs whose BER encodings differ in length: 82 2c / ff 7f / 81 80 00
 KINDS = ["int", "null", "nso", "nsi", "eomv"]
 VB = [(oi, k) for oi in range(len(U)) for k in KINDS]   # 35 varbind choices
 TLV = {"null": B.enc_null(), "nso": M.EXC_TLV["NoSuchObject"], "nsi": M.EXC_TLV["NoSuchInstance"], "eomv": M.EXC_TLV["EndOfMibView"]}
@@ -30,19 +31,19 @@ def strategies(tier, rng):
         out += [[list(rng.choice(VB) for _ in range(3))] for _ in range(1500)]
     # depth 2: first reply continues the walk; second reply anything of 0..1 (quick) / 0..2 (thorough) varbinds
     firsts = [[(2, "int")], [(3, "int")], [(4, "int")], [(5, "int")], [(2, "int"), (3, "int")], [(3, "int"), (4, "int")], [(2, "eomv"), (4, "int")],
-              [(4, "int"), (2, "int")], [(3, "int"), (3, "int")], [(5, "int"), (5, "nso")]]
+              [(4, "int"), (2, "int")], [(3, "int"), (3, "int")], [(5, "int"), (5, "nso")], [(7, "int")], [(8, "int")], [(9, "int")], [(7, "int"), (9, "int")]]
     seconds = [[]] + [[v] for v in VB] + ([[a, b] for a in VB for b in VB] if tier != "quick" else [])
     for f in firsts:
         for s in seconds:
             out.append([list(f), list(s)])
     # loops and random deep strategies
-    for oi in (2, 3, 4, 5):
+    for oi in (2, 3, 4, 5, 8, 9):
         out.append([[(oi, "int")]] * 8)
         out.append([[(oi, "int"), (oi, "int")]] * 6)
         out.append([[(5, "int")], [(oi, "int")], [(5, "int")], [(oi, "int")], [(5, "int")], [(oi, "int")]])
     for _ in range(800 if tier == "quick" else 20000):
         depth = rng.randint(2, 8)
-        out.append([[rng.choice(VB) if rng.random() < 0.4 else (rng.choice([2, 3, 4, 5]), "int") for _ in range(rng.choice([0, 1, 1, 1, 2, 3, 6]))]
+        out.append([[rng.choice(VB) if rng.random() < 0.4 else (rng.choice([2, 3, 4, 5, 7, 8, 9]), "int") for _ in range(rng.choice([0, 1, 1, 1, 2, 3, 6]))]
                     for _ in range(depth)])
     return out
 
@@ -121,8 +122,8 @@ def worker(job):
 def main():
     a = runner.main_args()
     chk = runner.Check(PID, "exploration", a.tier, a.seed)
-    chk.rule = ("universe: 7 OIDs (before base, base, base.1, base.2, base.2.1, base.3, after) x 5 value kinds (INTEGER serial, NULL, noSuchObject, "
-                "noSuchInstance, endOfMibView) = 35 varbinds. Exhaustive: every first reply of 0..2 (quick) / 0..3 (thorough) varbinds; depth 2: "
+    chk.rule = ("universe: 10 OIDs (before base, base, base.1, base.2, base.2.1, base.3, after, base.300, base.16383, base.16384 - arcs whose BER "
+                "encodings differ in length) x 5 value kinds (INTEGER serial, NULL, noSuchObject, noSuchInstance, endOfMibView) = 50 varbinds. Exhaustive: every first reply of 0..2 (quick) / 0..3 (thorough) varbinds; depth 2: "
                 "10 continuing first replies x every second reply of 0..1 (quick) / 0..2 (thorough) varbinds; loop-forever agents; random "
                 "strategies to depth 8 with repeated, decreasing and oversized lists; x {getnext, getbulk} x {v2c, v3 noAuth, v3 auth+priv, v1} "
                 "x {sync, async}. After the script the agent answers endOfMibView; a run is cut after len(script)+3 requests. distinct = "
